@@ -44,8 +44,9 @@ func runC14(c *Ctx) bool {
 			}
 		}
 		if j%16 == 9 {
-			// ONE root whose rendering exceeds one / two 4096-byte buffers
-			n := []int{180, 400}[(j/16)%2]
+			// ONE root whose rendering exceeds one / two 4096-byte buffers - or, every third time,
+			// two 32 KiB chunks (about 70 KiB)
+			n := []int{180, 400, 2600}[(j/16)%3]
 			depths := make([]int, n)
 			names := make([]string, n)
 			for i := range depths {
